@@ -2,17 +2,18 @@
 import sys
 import common
 import core_checks
+import coreops
 
 KINDS = ["set_lb", "set_ub", "set_bounds", "add_mets", "add_mets", "sub_mets", "set_rule", "set_rule", "ko_gene", "ko_rxn", "ko_genes",
          "obj_coef", "set_obj", "set_dir", "add_rxns", "rm_rxns", "add_model_mets", "rm_mets", "add_boundary", "imul", "remove_genes",
-         "enter", "enter", "enter", "exit", "exit", "exit", "exit"]
+         "ratchet_up", "ratchet_down", "enter", "enter", "enter", "exit", "exit", "exit", "exit"]
 RULE = ("random programs of context-aware ops inside nested `with model:` blocks (depth <= 3), failing ops included; full snapshot (content, "
         "cross-references, raw GLPK problem) at __enter__ vs after __exit__; counted: distinct (model, last three ops) of traces with >= 3 ops")
 
 
 def run(ctx):
     return core_checks.run_core_property(ctx, "CobraModel.Props.C03", kinds=KINDS, oracles=("ctx", "xref", "sync"), quick=300, thorough=6000,
-                                         rule=RULE, maxlen=16)
+                                         rule=RULE, maxlen=16, profiles=[KINDS] + coreops.PROFILES[1:])
 
 
 if __name__ == "__main__":
